@@ -204,6 +204,10 @@ pub(crate) struct GlobalCollector {
     reporter: Option<Box<dyn Reporter>>,
 
     active_collectors: HashMap<usize, ActiveCollector>,
+    // Collect ids whose `CommitCollect`/`DropCollect` was read before their `StartCollect`. The two
+    // commands can travel through different threads' queues, and the queues are drained one after
+    // another, so a start can be read one cycle later than the commit. Kept for one cycle only.
+    finished_before_start: Vec<usize>,
 
     // Vectors to be reused by collection loops. They must be empty outside of the
     // `handle_commands` loop.
@@ -221,6 +225,7 @@ impl GlobalCollector {
             reporter: Some(Box::new(reporter)),
 
             active_collectors: HashMap::new(),
+            finished_before_start: vec![],
 
             start_collects: vec![],
             drop_collects: vec![],
@@ -295,14 +300,20 @@ impl GlobalCollector {
         }
 
         for StartCollect { collect_id } in self.start_collects.drain(..) {
+            // The trace was already committed or dropped in the previous cycle: there is nothing
+            // left to collect, and nobody would remove the entry again.
+            if self.finished_before_start.contains(&collect_id) {
+                continue;
+            }
             self.active_collectors
                 .insert(collect_id, ActiveCollector::default());
         }
+        self.finished_before_start.clear();
 
         for DropCollect { collect_id } in self.drop_collects.drain(..) {
             // Cancelling a trace is only meaningful when spans are held until the root finishes.
-            if self.config.cancelable {
-                self.active_collectors.remove(&collect_id);
+            if self.config.cancelable && self.active_collectors.remove(&collect_id).is_none() {
+                self.finished_before_start.push(collect_id);
             }
         }
 
@@ -364,6 +375,8 @@ impl GlobalCollector {
                     &mut committed_records,
                     &mut active_collector.danglings,
                 );
+            } else {
+                self.finished_before_start.push(collect_id);
             }
         }
 
